@@ -189,6 +189,16 @@ class YieldCounter:
         if isinstance(e, (ast.ListComp, ast.GeneratorExp)) and len(e.generators) == 1 and not e.generators[0].ifs:
             return self.size_of(st, e.generators[0].iter)
         if isinstance(e, (ast.List, ast.Tuple)):
+            if any(isinstance(x, ast.Starred) for x in e.elts):
+                # [*xs, y]: the unpacked iterables contribute their own sizes
+                total = Lin.c(sum(1 for x in e.elts if not isinstance(x, ast.Starred)))
+                for x in e.elts:
+                    if isinstance(x, ast.Starred):
+                        sz = self.size_of(st, x.value)
+                        if not isinstance(sz, Lin):
+                            return sz
+                        total = total + sz
+                return total
             return Lin.c(len(e.elts))
         if isinstance(e, (ast.DictComp, ast.SetComp)) and len(e.generators) == 1 and not e.generators[0].ifs:
             g = e.generators[0]
